@@ -281,27 +281,47 @@ def run(ctx, report):
                 bad = True
         if not bad:
             R2.ok(inst, sample='%s branch: class test, compares %s, recurses into %s' % (c, sorted(cmp), sorted(rec)))
-    # test_set consistency guard
+    # test_set, evaluated: the five cases of (wildcard?, bound?, equal?)
     ts = mod.func('test_set')
-    tp = [x.arg for x in ts.args.args]
-    if len(tp) != 4:
+    if len(ts.args.args) != 4:
         raise AnalysisError('test_set signature changed')
-    te, tv, ttks, tres = tp
-    guard = False
-    for n in ast.walk(ts):
-        if isinstance(n, ast.If) and any(isinstance(s, ast.Return) and u(s.value) == 'False' for s in n.body):
-            t = u(n.test)
-            if ('%s in %s' % (tv, tres)) in t and (('%s[%s] != %s' % (tres, tv, te)) in t or ('%s != %s[%s]' % (te, tres, tv)) in t):
-                guard = True
-    nonwild = any(isinstance(n, ast.If) and u(n.test) in ('not %s in %s' % (tv, ttks), '%s not in %s' % (tv, ttks))
-                  and any(isinstance(s, ast.Return) and u(s.value) in ('%s == %s' % (te, tv), '%s == %s' % (tv, te)) for s in n.body)
-                  for n in ast.walk(ts))
-    if guard and nonwild:
-        R2.ok('test_set', sample='test_set: non-wildcards compared by ==, rebinding guarded by result[v] != e')
-    else:
-        R2.violation('test_set', 'test_set', 'test_set lost its consistency guard or its equality test for non-wildcards', where(mod, ts))
-    R2.note('return convention is mixed (r == False in the ExprOp branch, not r elsewhere; a successful sub-match may return {}): '
-            'matching is incomplete for patterns without wildcards below a Cond/Compose, which the property does not forbid')
+    from ..consteval import Evaluator, NotConst
+    cases = [('non-wildcard, equal', ('x', 'x', ['a'], {}), 'success', {}),
+             ('non-wildcard, different', ('x', 'y', ['a'], {}), 'failure', {}),
+             ('wildcard, unbound', ('x', 'a', ['a'], {}), 'success', {'a': 'x'}),
+             ('wildcard, bound to the same', ('x', 'a', ['a'], {'a': 'x'}), 'success', {'a': 'x'}),
+             ('wildcard, bound to another', ('x', 'a', ['a'], {'a': 'y'}), 'failure', {'a': 'y'})]
+    for label, (e_, v_, tks_, res_), want, want_res in cases:
+        res_obj = dict(res_)
+        try:
+            out = Evaluator({}).call_user(ts, [e_, v_, list(tks_), res_obj])
+        except NotConst as ex:
+            raise AnalysisError('test_set is outside the statically evaluable subset: %s' % ex)
+        inst = 'test_set: %s' % label
+        if want == 'failure':
+            if out is False:
+                R2.ok(inst, sample='%s -> False' % label)
+            else:
+                R2.violation(inst, 'test_set:%s' % label, 'test_set returns %r for a %s operand: the match must fail' % (out, label), where(mod, ts),
+                             witness='MatchExpr(x+y, a+a, [a]) succeeds' if 'another' in label else None)
+        else:
+            if out is res_obj and res_obj == want_res:
+                R2.ok(inst, sample='%s -> the bindings %s' % (label, want_res))
+            elif out is False or out is None:
+                R2.violation(inst, 'test_set:%s' % label, 'test_set fails (%r) for a %s operand' % (out, label), where(mod, ts))
+            else:
+                R2.violation(inst, 'test_set:%s:not-bindings' % label, 'test_set returns %r instead of the bindings for a %s operand: a successful match of a pattern that is '
+                             'a wildcard-free leaf returns a bool, which cannot be substituted into the pattern' % (out, label), where(mod, ts),
+                             witness='MatchExpr(x, x, [a]) returns True; pattern.replace_expr(True) raises TypeError')
+    # totality over the node classes: the final else of the class dispatch must fail, not crash
+    if _else is not None:
+        beliefs = [st for st in _else if isinstance(st, ast.Expr) and isinstance(st.value, ast.Name)]
+        if beliefs:
+            R2.violation('MatchExpr[other]', 'MatchExpr:else:%s' % u(beliefs[0]), 'for a node class without a branch (ExprAff) MatchExpr evaluates the bare name `%s`: NameError instead of a failed match'
+                         % u(beliefs[0]), where(mod, beliefs[0]), witness='MatchExpr(ExprAff(x, y+1), ExprAff(a, b+1), [a, b]) raises NameError')
+        else:
+            R2.ok('MatchExpr[other]', sample='classes without a branch fail to match')
+    R2.note('completeness (a binding exists => the match succeeds) is not part of the property; only soundness of success and of failure are decided')
 
 
 MUTANTS = [
@@ -319,7 +339,7 @@ MUTANTS = [
     ('match-slice-bounds', 'miasmx/expression/expression.py',
      '        if e.start != m.start or e.stop != m.stop:\n            return False\n', '        if e.start != m.start:\n            return False\n', 'C16.D2'),
     ('match-mem-size', 'miasmx/expression/expression.py',
-     '        if e.size != m.size or e.segm != m.segm:\n            return False\n', '        if e.segm != m.segm:\n            return False\n', 'C16.D2'),
+     '        if e.size != m.size:\n            return False\n        if isinstance(e.segm, Expr)', '        if isinstance(e.segm, Expr)', 'C16.D2'),
     ('match-op-noop', 'miasmx/expression/expression.py',
      '        if e.op != m.op or len(e.args) != len(m.args):\n', '        if len(e.args) != len(m.args):\n', 'C16.D2'),
     ('match-op-noarity', 'miasmx/expression/expression.py',
@@ -327,7 +347,7 @@ MUTANTS = [
     ('match-cond-class', 'miasmx/expression/expression.py',
      '        if not isinstance(m, ExprCond):\n            return False\n', '', 'C16.D2'),
     ('match-cond-src2', 'miasmx/expression/expression.py',
-     '        r = MatchExpr(e.src2, m.src2, tks, result)\n        if not r: return False\n', '', 'C16.D2'),
+     '        r = MatchExpr(e.src2, m.src2, tks, result)\n        if r is False: return False\n', '', 'C16.D2'),
     ('testset-noguard', 'miasmx/expression/expression.py',
      '    if v in result and result[v] != e:\n        return False\n', '', 'C16.D2'),
     ('compose-get_r-first', 'miasmx/expression/expression.py',
